@@ -103,6 +103,33 @@ def run(names, tier, all_checks):
             shutil.rmtree(tmp, ignore_errors=True)
 
 
+def report():
+    root = VERIF / "seeded"
+    results = json.loads((root / "RESULTS.json").read_text()) if (root / "RESULTS.json").exists() else {}
+    lines = [
+        "# Independently seeded property-breaking changes",
+        "",
+        "Each directory holds `patch.diff` (a change to csingley/ofxtools written by a sub-agent that was given only the text of the",
+        "property and a scratch worktree), `demo.py` (fails with the change, passes without) and `meta.json` (what it breaks, what it needs",
+        "to manifest, what was run to confirm it).  Every change was confirmed on a scratch copy of /repo: the repository's own 3592 tests",
+        "pass with it, the demonstration exits non-zero with it and zero without.  None of them is ever committed to /repo.",
+        "",
+        "`python -m pbt.seeded run [NAME] [--tier=quick|thorough] [--all-checks]` applies each patch to a scratch copy and runs the checks with",
+        "`VERIF_REPO=<copy>`; the table below is generated from `RESULTS.json` by `python -m pbt.seeded report`.",
+        "",
+        "| change | property | needs, to manifest | caught by (tier: failure keys) | not caught by |",
+        "|---|---|---|---|---|",
+    ]
+    for name in sorted(p.name for p in root.iterdir() if (p / "patch.diff").exists()):
+        meta = json.loads((root / name / "meta.json").read_text())
+        rec = results.get(name, {"checks": {}})
+        caught = [f"{k}: {', '.join(v['keys'][:3])}" for k, v in sorted(rec["checks"].items()) if v.get("caught")]
+        missed = [k for k, v in sorted(rec["checks"].items()) if not v.get("caught") and k.startswith(meta["property"])]
+        lines.append(f"| {name} | {meta['property']} | {str(meta.get('needs_to_manifest', '')).replace('|', '/')[:260]} | {'; '.join(caught) or '-'} | {', '.join(missed) or '-'} |")
+    (root / "README.md").write_text("\n".join(lines) + "\n")
+    print("\n".join(lines[-25:]))
+
+
 def main():
     a = sys.argv[1:]
     if a and a[0] == "validate":
@@ -118,6 +145,9 @@ def main():
             if x.startswith("--tier="):
                 tier = x.split("=", 1)[1]
         run(names, tier, "--all-checks" in a)
+        return
+    if a and a[0] == "report":
+        report()
         return
     print(__doc__)
 
